@@ -8,12 +8,12 @@ import (
 	"fmt"
 	"math/rand"
 	"os"
-	"os/exec"
 	"path/filepath"
 	"regexp"
 	"sort"
 	"strings"
 	"testing"
+	"time"
 
 	eth2p0 "github.com/attestantio/go-eth2-client/spec/phase0"
 
@@ -59,12 +59,15 @@ type MutateReport struct {
 	Allowed  map[string]int            `json:"allowed"`  // enumerated legitimate exceptions -> count
 	// HashGaps: alterations that the hashes alone do not detect (seen on golden files, whose signatures
 	// cannot be checked) but that full verification of a fresh file of the same version rejects.
-	HashGaps    map[string]int `json:"hash_only_gaps_closed_by_other_checks"`
-	Survivors   []Survivor     `json:"survivors"`
-	Panics      []Survivor     `json:"panics"`
-	RoundTrips  int            `json:"round_trips"`
-	RoundTripNG []string       `json:"round_trip_failures"`
-	Baselines   []string       `json:"baseline_failures"`
+	HashGaps    map[string]int     `json:"hash_only_gaps_closed_by_other_checks"`
+	Survivors   []Survivor         `json:"survivors"`
+	Panics      []Survivor         `json:"panics"`
+	Skipped     int                `json:"skipped_over_budget"`
+	Notes       []string           `json:"notes"`
+	LargeCount  []LargeCountResult `json:"large_count_probe"`
+	RoundTrips  int                `json:"round_trips"`
+	RoundTripNG []string           `json:"round_trip_failures"`
+	Baselines   []string           `json:"baseline_failures"`
 }
 
 var reAddrLeaf = regexp.MustCompile(`(^|\.)(address|fee_recipient_address|withdrawal_address)$`)
@@ -183,6 +186,17 @@ func (c *campaign) run(src Source, doc []byte, isLock, withSigs bool) {
 	if isLock {
 		verify = verifyLockJSON
 	}
+	verifyRaw := verify
+	verify = func(b []byte, sigs bool) (cl string, detail string) {
+		fin, _ := withTimeout(caseTimeout, fmt.Sprintf("verification of a %s %s file", src.Kind, src.Version), func() { cl, detail = verifyRaw(b, sigs) })
+		if !fin {
+			return "stalled", "no verdict within " + caseTimeout.String()
+		}
+		return cl, detail
+	}
+	if overBudget("the mutation campaign") {
+		return
+	}
 	if cl, d := verify(doc, withSigs); cl != "ok" {
 		c.rep.Baselines = append(c.rep.Baselines, fmt.Sprintf("%s %s %s: unmutated file fails verification: %s %s", src.Kind, src.Version, src.File, cl, d))
 		return
@@ -195,9 +209,16 @@ func (c *campaign) run(src Source, doc []byte, isLock, withSigs bool) {
 		if !withSigs && (pat == "signature_aggregate" || strings.HasPrefix(pat, "node_signatures")) {
 			return // covered by signatures only; judged on the fresh files
 		}
+		if overBudget("the mutation campaign") {
+			c.rep.Skipped++
+			return
+		}
 		c.rep.Mutants++
 		c.rep.ByAlt[m.Alt]++
 		cl, detail := verify(mut, withSigs)
+		if cl == "stalled" {
+			note("stalled mutant: %s %s %s %s", src.Kind, src.Version, m.Path, m.Alt)
+		}
 		c.rep.Classes[cl]++
 		if withSigs {
 			jk := judgeKey(src.Version, isLock, pat, m.Alt)
@@ -408,7 +429,16 @@ func TestMutate(t *testing.T) {
 	}
 	for _, sp := range freshSpecs(hx.Thorough(), hx.Seed()) {
 		sp := sp
-		lock, _, _ := freshLock(t, sp)
+		if overBudget("the mutation campaign") {
+			break
+		}
+		var lock cluster.Lock
+		if fin, p := withTimeout(30*time.Second, fmt.Sprintf("building the fresh lock %+v", sp), func() { lock, _, _ = freshLock(t, sp) }); !fin || p != nil {
+			if p != nil {
+				note("building the fresh lock %+v panicked: %v", sp, p)
+			}
+			continue
+		}
 		b, err := json.MarshalIndent(lock, "", " ")
 		if err != nil {
 			t.Fatal(err)
@@ -487,6 +517,11 @@ func TestMutate(t *testing.T) {
 		c.rep.Survivors = append(c.rep.Survivors, s)
 	}
 	sort.Slice(c.rep.Survivors, func(i, j int) bool { return c.rep.Survivors[i].Key < c.rep.Survivors[j].Key })
+	// the one deliberate large-count input per version, in a child process with a time budget
+	if !overBudget("the large-count probe") {
+		c.rep.LargeCount = largeCountProbe(t, 2000000)
+	}
+	c.rep.Notes = takeNotes()
 	if err := hx.WriteJSON("c12_mutate.json", c.rep); err != nil {
 		t.Fatal(err)
 	}
@@ -618,10 +653,8 @@ func createFromDefinition(bin, dir string, def cluster.Definition) (string, []by
 	if err := os.WriteFile(fn, b, 0o600); err != nil {
 		return "", b, err
 	}
-	cmd := exec.Command(bin, "create", "cluster", "--insecure-keys", "--cluster-dir="+dir, "--definition-file="+fn)
-	cmd.Env = append(os.Environ(), "HOME="+dir)
-	out, err := cmd.CombinedOutput()
-	return string(out), b, err
+	out, err := runCmd(90*time.Second, append(os.Environ(), "HOME="+dir), bin, "create", "cluster", "--insecure-keys", "--cluster-dir="+dir, "--definition-file="+fn)
+	return out, b, err
 }
 
 // createCluster runs `charon create cluster` (the binary built from the checked working tree).
@@ -643,10 +676,7 @@ func createCluster(bin, dir string, s Shape) (string, error) {
 	if s.Compounding {
 		args = append(args, "--compounding")
 	}
-	cmd := exec.Command(bin, args...)
-	cmd.Env = append(os.Environ(), "HOME="+dir)
-	out, err := cmd.CombinedOutput()
-	return string(out), err
+	return runCmd(90*time.Second, append(os.Environ(), "HOME="+dir), bin, args...)
 }
 
 // ShapeResult is what was checked for one shape.
@@ -955,7 +985,13 @@ func checkShape(t *testing.T, bin string, s Shape, exhaustive bool, rnd func(int
 				t.Fatal(err)
 			}
 		}
-		err := combine.Combine(context.Background(), in, outDir, true, false, "", eth2util.Network{}, combine.WithInsecureKeysForT(t))
+		var err error
+		if fin, p := withTimeout(90*time.Second, fmt.Sprintf("combine of nodes %v (%s)", sub, s), func() {
+			err = combine.Combine(context.Background(), in, outDir, true, false, "", eth2util.Network{}, combine.WithInsecureKeysForT(t))
+		}); !fin || p != nil {
+			failf("combine of nodes %v did not finish (stalled or panicked: %v)", sub, p)
+			continue
+		}
 		if err != nil {
 			failf("combine of nodes %v failed: %v", sub, shortErr(err))
 			continue
@@ -985,7 +1021,11 @@ func checkShape(t *testing.T, bin string, s Shape, exhaustive bool, rnd func(int
 		for i := 0; i < t0-1; i++ {
 			_ = copyNode(filepath.Join(dir, fmt.Sprintf("node%d", i)), filepath.Join(in, fmt.Sprintf("node%d", i)))
 		}
-		if err := combine.Combine(context.Background(), in, outDir, true, false, "", eth2util.Network{}, combine.WithInsecureKeysForT(t)); err == nil {
+		var err error
+		fin, _ := withTimeout(90*time.Second, "combine below threshold", func() {
+			err = combine.Combine(context.Background(), in, outDir, true, false, "", eth2util.Network{}, combine.WithInsecureKeysForT(t))
+		})
+		if fin && err == nil {
 			failf("combine with %d < threshold %d shares succeeded", t0-1, t0)
 		}
 		ok()
@@ -1180,6 +1220,9 @@ func TestBlackbox(t *testing.T) {
 	}
 	var results []ShapeResult
 	for _, s := range shs {
+		if overBudget("the black-box campaign") {
+			break
+		}
 		exhaustive := hx.Thorough() && s.Nodes <= 6
 		results = append(results, checkShape(t, bin, s, exhaustive, rnd))
 	}
